@@ -186,7 +186,10 @@ def check_periodic_localgrid(ctx, g, center, radius, lg, exc):
         m = max(float(np.abs(jf - j).max()), float(np.abs(t - j @ A).max()) / scale)
     else:
         m = 0.0
-    ctx.check("translation-is-lattice-vector", subj, m, TOL_TRANSLATION, sig="non-lattice-displacement" + tail)
+    # rounding of "parent + translation" grows with the size of the translation: the integer part j is known to about
+    # eps * |j| * cond(cell), so the tolerance scales with |j| beyond 100 cells (a wrong image is off by >= 1)
+    jmax = float(np.abs(j).max()) if idx.size else 0.0
+    ctx.check("translation-is-lattice-vector", subj, m / max(1.0, jmax / 100.0), TOL_TRANSLATION, sig="non-lattice-displacement" + tail)
     if not m <= 1e-3:
         return  # the pairs cannot be recovered
     pairs = [(int(i), tuple(int(v) for v in row)) for i, row in zip(idx, j)]
@@ -404,8 +407,14 @@ def pick_periodic_query(rng, g, A, full, mode):
         c = P[rng.integers(n)] + rng.integers(-10, 11, nl) @ A  # far image of a grid point
         if rng.random() < 0.5:
             c = c + rng.normal(size=dim) * smin * float(rng.choice([1e-6, 0.05, 0.4]))
-    else:
+    elif u < 0.9:
         c = rng.uniform(-10, 10, dim) @ full
+    else:
+        # a centre thousands to millions of cells away from the stored points (the image enumeration is centred on the
+        # query, so its cost does not grow with the distance); coordinates stay exactly representable to ~1e-9 of a cell
+        c = P[rng.integers(n)] + (rng.integers(-1, 2, nl) * int(2 * 10 ** rng.integers(3, 6))) @ A
+        if rng.random() < 0.5:
+            c = c + rng.normal(size=dim) * smin * 0.3
     if mode == "zero":
         r = 0.0
     elif mode == "tiny":
